@@ -214,6 +214,8 @@ def value_types(v, depth=0):
             f += '!quote'
         if '"' in v:
             f += '!dquote'
+            if v[:1] == '"' or v[-1:] == '"':
+                f += '!dq-edge'     # a double quote as first / last character: what a reader that strips the delimiters loses
         if '\\' in v:
             f += '!backslash'
         if v == '':
